@@ -763,6 +763,29 @@ class FloatShim(metaclass=_FloatMeta):
         return _real_float(x)
 
 
+# fractions.Fraction treats any float subclass as a float: Fraction * SymFloat would first convert the exact
+# Fraction to a binary float (losing ~1e-17 relative) and then lift that by its repr.  Make Fraction defer to the
+# proxy instead (NotImplemented -> Python calls SymFloat's reflected method, which is exact).
+def _patch_fraction():
+    if getattr(Fraction, '_verif_patched', False):
+        return
+    names = ['__add__', '__radd__', '__sub__', '__rsub__', '__mul__', '__rmul__', '__truediv__', '__rtruediv__',
+             '__lt__', '__le__', '__gt__', '__ge__', '__eq__']
+    for name in names:
+        orig = getattr(Fraction, name)
+
+        def wrapped(a, b, _orig=orig):
+            if isinstance(b, SymFloat):
+                return NotImplemented
+            return _orig(a, b)
+        wrapped.__name__ = name
+        setattr(Fraction, name, wrapped)
+    Fraction._verif_patched = True
+
+
+_patch_fraction()
+
+
 # =============================================================================================
 # exploration
 # =============================================================================================
